@@ -307,6 +307,7 @@ def search(ctx, boost=1, focus=()):
             if cx + 2 < w:
                 m[cy, cx + 2] = m[cy, cx] - 1
         off = [(0.0, 0.0), (0.0, 0.5), (0.5, 0.0), (0.5, 0.5), (0.25, 0.0), (0.0, -0.5)][k % 6]
-        q = {"map": m, "dtype": ["float32", "float64"][(k // 6) % 2], "center": [cy + off[0], cx + off[1]], "above": float(k % 3)}
+        q = {"map": m, "dtype": ["float32", "float64"][(k // 6) % 2], "center": [cy + off[0], cx + off[1]],
+             "above": float((0, 1, 2, -1, 0, -0.5)[k % 6 if (k // 6) % 2 else k % 3])}   # negative: a pixel lies above the height -> floor 0
         ctx.oracle_case("elevation_kernel", q, run_case("elevation_kernel", q), nontrivial=off != (0.0, 0.0))
         ctx.count("elevation_kernel")
